@@ -5,6 +5,7 @@ package svc
 
 import (
 	"fmt"
+	"strings"
 	"sync"
 	"sync/atomic"
 
@@ -54,7 +55,20 @@ func (p *Impl) Activate(activation bus.Activation, helper probe.ProbeSignalHelpe
 	if err := helper.UpdateGain(0); err != nil {
 		return err
 	}
+	if err := helper.UpdateLabel(""); err != nil {
+		return err
+	}
+	if err := helper.UpdateSpot(probe.Item{}); err != nil {
+		return err
+	}
 	return helper.UpdateLevel(p.InitLevel)
+}
+
+// Activation returns the activation the object received.
+func (p *Impl) Activation() bus.Activation {
+	p.mu.Lock()
+	defer p.mu.Unlock()
+	return p.Act
 }
 
 // OnTerminate counts terminations.
@@ -141,6 +155,22 @@ func (p *Impl) OnLevelChange(v int32) error {
 
 // OnGainChange accepts every value of the second property.
 func (p *Impl) OnGainChange(v int32) error { return nil }
+
+// OnLabelChange refuses labels which start with "bad".
+func (p *Impl) OnLabelChange(v string) error {
+	if strings.HasPrefix(v, "bad") {
+		return fmt.Errorf("label refused")
+	}
+	return nil
+}
+
+// OnSpotChange refuses items whose name starts with "bad".
+func (p *Impl) OnSpotChange(v probe.Item) error {
+	if strings.HasPrefix(v.Name, "bad") {
+		return fmt.Errorf("spot refused")
+	}
+	return nil
+}
 
 // FakeEndPoint is a net.EndPoint that records what is sent.
 type FakeEndPoint struct {
